@@ -1,9 +1,9 @@
-(* Extraction of the executable model for the correspondence run (ExtrOcamlBasic only). *)
+(* Extraction of the executable models for the correspondence run (ExtrOcamlBasic only). *)
 From Coq Require Import ZArith.
 From Coq Require Extraction.
 From Coq Require Import ExtrOcamlBasic.
-From C11 Require Import Model.
+From C11 Require Import Model PolyModel.
 Extraction Language OCaml.
 Cd "ocaml".
-Extraction "model.ml" ratrecon RR7 RR4 RR6 RatCtor QF_ratrecon_k QF_ratrecon.
+Extraction "model.ml" ratrecon RR7 RR4 RR6 RatCtor QF_ratrecon_k QF_ratrecon pratrecon6 pratreconcheck pquo pmul psub pgcd_deg.
 Cd "..".
